@@ -417,7 +417,7 @@ def free_run(dc, sc, res, rng, seed, topo, label):
     d = sc.new()
     journal = rng.choice(['wal', 'wal', 'delete', 'truncate', 'persist'])
     res.count('free_runs_journal_' + ('wal' if journal == 'wal' else 'rollback'))
-    dc.Cache(d, disk_min_file_size=T, eviction_policy='none', sqlite_journal_mode=journal).close()
+    dc.Cache(d, disk_min_file_size=T, eviction_policy='none', **common.journal_kw(journal)).close()
     nprod, ncons, n = rng.randrange(2, 4), rng.randrange(1, 3), rng.randrange(30, 70)
     roles = [('producer', i) for i in range(nprod)] + [('consumer', nprod + i) for i in range(ncons)]
     outs = []
